@@ -29,7 +29,8 @@ THEOREMS = ['C15_tokens_of_appended_options', 'C15_keywords_prefix',
             'C15_split_like_card', 'C15_split_then_like_re',
             'C15_like_re_recognises', 'C15_like_chain_text', 'C15_chain_depth',
             'C15_like_in_parse_all', 'C15_replace_like_card', 'C15_expand_all',
-            'C15_like_equals_expanded', 'C15_like_mat_void']
+            'C15_like_equals_expanded', 'C15_like_mat_void',
+            'C15_expansion_card', 'C15_like_expansion_card']
 TRUSTED = [
     'hand-written model coq/C15/Model.v (modelled, tied by execution only)',
     'environment of the model, filled per deck from the repository\'s own '
@@ -681,6 +682,7 @@ def run(res, tier, seed, proofs_ok):
         deck = gen_edge_deck(rng, base, index=i)
         text = gen.render(deck, rng)
         obs = ImplDeck(text, edge_lattice_params(rng, deck))
+        obs.edge = True
         res.seen(text, nontrivial=True)
         res.count('stream:edge')
         if obs.setup_error is not None:
@@ -737,8 +739,14 @@ def run(res, tier, seed, proofs_ok):
     undefined, errs = common.run_case_files(
         'c15_canondef', HEADER, 'tables * table * out', 'canon_defined',
         cases, chunk=30)
-    res.count('canon-defined-decks', len(cases) - len(undefined))
-    res.count('canon-undefined-decks', len(undefined))
+    n_struct = sum(1 for _, o in meta if not getattr(o, 'edge', False))
+    und_struct = sum(1 for k in undefined if not getattr(meta[k][1], 'edge',
+                                                         False))
+    res.count('canon-defined:generated-decks', n_struct - und_struct)
+    res.count('canon-undefined:generated-decks', und_struct)
+    res.count('canon-defined:edge-decks',
+              len(cases) - n_struct - (len(undefined) - und_struct))
+    res.count('canon-undefined:edge-decks', len(undefined) - und_struct)
 
     # ---- 3. split of LIKE cards ----
     uniq = {}
